@@ -932,36 +932,47 @@ func c19EmptyListRestrictsNothing(r *core.Report, pred *core.Func) {
 			if kind != "any" || ans == nil {
 				continue
 			}
-			for _, rn := range g.Returns() {
-				res := returnResults(rn)
-				if len(res) != 1 || !g.Dominates(nd, rn) {
-					continue
+			// the edges on which the helper's answer is (or may be) "none of them" and from which only rejections follow
+			rejectOnly := func(e *core.GNode) *core.GNode {
+				var first *core.GNode
+				for x := range g.ReachFromIncl(e, nil) {
+					rs, ok := x.Ast.(*ast.ReturnStmt)
+					if !ok || x.Kind != core.KStmt || !g.Dominates(e, x) {
+						continue
+					}
+					if b, isC := boolConst(info, rs.Results[0]); len(rs.Results) == 1 && isC && !b {
+						if first == nil || x.Ast.Pos() < first.Ast.Pos() {
+							first = x
+						}
+						continue
+					}
+					return nil
 				}
-				if v, isC := boolConst(info, res[0]); !isC || v {
+				return first
+			}
+			for _, e := range g.Nodes {
+				if e.Kind != core.KEdge || e.Ast == nil || e.Tag != nil || !g.Dominates(nd, e) {
 					continue
 				}
 				ansFalse := false
-				for _, fc := range g.FactsAt(rn) {
+				for _, fc := range e.Facts() {
 					if fc.Tag == nil && !fc.Truth && core.ObjOf(info, core.Unparen(fc.Expr)) == ans {
 						ansFalse = true
 					}
 				}
 				// `err != nil || !hasOne` taken: the answer may be false on this edge
-				if !ansFalse {
-					for _, d := range g.Dominators(rn) {
-						if d.Kind != core.KEdge || d.Ast == nil || d.Tag != nil || !d.Truth || !g.Dominates(nd, d) {
-							continue
-						}
-						if ce, isE := d.Ast.(ast.Expr); isE {
-							for _, dj := range disjuncts(ce) {
-								if u, isU := core.Unparen(dj).(*ast.UnaryExpr); isU && u.Op == token.NOT && core.ObjOf(info, core.Unparen(u.X)) == ans {
-									ansFalse = true
-								}
-							}
+				if ce, isE := e.Ast.(ast.Expr); isE && e.Truth && !ansFalse {
+					for _, dj := range disjuncts(ce) {
+						if u, isU := core.Unparen(dj).(*ast.UnaryExpr); isU && u.Op == token.NOT && core.ObjOf(info, core.Unparen(u.X)) == ans {
+							ansFalse = true
 						}
 					}
 				}
 				if !ansFalse {
+					continue
+				}
+				rn := rejectOnly(e)
+				if rn == nil {
 					continue
 				}
 				n++
